@@ -44,6 +44,8 @@ def economy(rnd, code='CA', currency=None, variant=None, names=None):
              dict(kind='tf', code=nm['tf'], rate=tax, to=govcode)]
     if variant == 'pc':
         secs += [dict(kind='money', issuer=nm['cb']), dict(kind='deposit', issuer=nm['tre'])]
+        if rnd.random() < 0.4:
+            secs += [dict(kind='deposit', code='BOND', issuer=nm['tre'])]
     return dict(code=code, currency=currency or code, sectors=secs, variant=variant,
                 exo=[(govcode, 'DEM_' + nm['good'] if False else 'DEM_GOOD', '[%r]*60' % g)], hh=nm['hh'], gov=govcode, roles=nm)
 
@@ -90,7 +92,7 @@ def build(program):
         elif k == 'money':
             o = MoneyMarket(co, issuer_short_code=s['issuer'])
         elif k == 'deposit':
-            o = DepositMarket(co, issuer_short_code=s['issuer'])
+            o = DepositMarket(co, code=s.get('code', 'DEP'), issuer_short_code=s['issuer'])
         elif k == 'plain':
             o = Sector(co, s['code'], has_F=True)
             for (v, e) in s.get('vars', []):
@@ -104,9 +106,15 @@ def build(program):
         if c.get('variant') == 'pc':
             hh = objs[(c['code'], c['hh'])]
             hh.AddVariable('L0', '', '0.635')
-            hh.GenerateAssetWeighting({'DEP': 'L0'}, 'MON')
-            dep = [o for (cc, code), o in objs.items() if cc == c['code'] and isinstance(o, DepositMarket)][0]
-            dep.SetExogenous('r', '[0.025]*60')
+            deps = [o for (cc, code), o in objs.items() if cc == c['code'] and isinstance(o, DepositMarket)]
+            if len(deps) > 1:
+                # two interest-bearing assets besides money: the residual weight is 1 - L0 - L1
+                hh.AddVariable('L1', '', '0.2')
+                hh.GenerateAssetWeighting({'DEP': 'L0', 'BOND': 'L1'}, 'MON')
+            else:
+                hh.GenerateAssetWeighting({'DEP': 'L0'}, 'MON')
+            for dep in deps:
+                dep.SetExogenous('r', '[0.025]*60')
         for (scode, var, val) in c.get('exo', []):
             if var not in objs[(c['code'], scode)].GetVariables():
                 # (the government classes take no good-name parameter: a renamed good is demanded through a user-declared variable)
